@@ -29,7 +29,7 @@ static std::string gen_message(Rng &r, const Cfg &c, std::string &desc)
         std::string pre = prefixes[r.below(prefixes.size())];
         std::string n = L.order[r.below(L.order.size())];
         std::string a = pre + L.pname(n);
-        if(n == "preset") { int v = (int)r.below(2); rtosc_message(buf, sizeof buf, a.c_str(), "i", v); desc = a + fmt(" %d", v); }
+        if(n == "preset") { int v = L.preset_lo + (int)r.below(2); rtosc_message(buf, sizeof buf, a.c_str(), "i", v); desc = a + fmt(" %d", v); }
         else if(n == "a") { int v = r.chance(0.2) ? (r.chance(0.5) ? L.a_min - 5 : L.a_max + 5) : (int)r.range(L.a_min, L.a_max); if(r.chance(0.3)) v = (int)r.range(-12, 130); rtosc_message(buf, sizeof buf, a.c_str(), "i", v); desc = a + fmt(" %d", v); }
         else if(n == "b") { float v = (float)r.range(-440, 440) / 4; rtosc_message(buf, sizeof buf, a.c_str(), "f", v); desc = a + fmt(" %g", v); }
         else if(n == "c") { int v = (int)r.range(0, 127); rtosc_message(buf, sizeof buf, a.c_str(), "c", v); desc = a + fmt(" %d", v); }
@@ -62,11 +62,11 @@ static void expect_leaf(const Leaf &l, const LeafCfg &L, const std::string &pre,
 {
     // placement 2: a Leaf whose own toggle is off is skipped, except for the toggle itself
     if(G->enable_placement == 2 && !l.on) only_on = true;
-    int p = l.preset;
+    int p = l.preset - L.preset_lo;
     for(auto &n : L.order) {
         if(only_on && n != "on") continue;
         bool differs = false;
-        if(n == "preset") differs = l.preset != 0;
+        if(n == "preset") differs = l.preset != L.preset_lo;
         else if(n == "a") differs = l.a != L.a_def[L.a_depends ? p : 0];
         else if(n == "b") differs = l.b != L.b_def[L.b_depends ? p : 0];
         else if(n == "c") differs = l.c != L.c_def;
@@ -167,7 +167,7 @@ static void make_world(Rng &r, World &w, int nmsg_max, bool focus = false)
             if(r.chance(0.8)) send("on", L.on_def ? "F" : "T", 0, 0);
             if(w.cfg.enable_placement == 2 && r.chance(0.7)) send("on", "T", 0, 0);
             if(r.chance(0.8)) send("mode", "i", (L.mode_def + 1 + (int)r.below(8)) % 10, 0);
-            if(r.chance(0.8)) send("preset", "i", 1, 0);
+            if(r.chance(0.8)) send("preset", "i", L.preset_lo + 1, 0);
             if(r.chance(0.8)) send("a", "i", (int)r.range(200, 900), 0);
             if(r.chance(0.6)) send("b", "f", 0, (float)r.range(100, 300) / 4);
             if(r.chance(0.6)) send("val", "i", (int)r.range(1, 100), 0);
@@ -180,7 +180,7 @@ static std::string cfg_desc(const Cfg &c)
 {
     std::string s = "leaf ports:";
     for(auto &n : c.leaf.order) s += " " + n;
-    s += fmt(" | a_dep=%d b_dep=%d arr_dep=%d enable_placement=%d many=%d ptr=%d%s top=%d toggle=%s%s val=%s", c.leaf.a_depends, c.leaf.b_depends, c.leaf.arr_depends, c.enable_placement, c.has_many, c.has_ptr, c.ptr_gated ? "(gated)" : "", c.has_top, c.en_name.c_str(), c.en_is_int ? "(int)" : "", c.leaf.val_name.c_str());
+    s += fmt(" | a_dep=%d b_dep=%d arr_dep=%d enable_placement=%d many=%d ptr=%d%s top=%d toggle=%s%s val=%s presets=%d..", c.leaf.a_depends, c.leaf.b_depends, c.leaf.arr_depends, c.enable_placement, c.has_many, c.has_ptr, c.ptr_gated ? "(gated)" : "", c.has_top, c.en_name.c_str(), c.en_is_int ? "(int)" : "", c.leaf.val_name.c_str(), c.leaf.preset_lo);
     return s;
 }
 
